@@ -821,6 +821,8 @@ def rule_memo(ctx, rule='C03.MEMO'):
         def writes(g):
             out = set()
             for s_ in g.own_nodes():
+                if isinstance(s_, ast.AugAssign) and isinstance(s_.value, ast.Constant) and isinstance(s_.value.value, (int, float)):
+                    continue        # a statistics counter (`self.lookups += 1`) remembers nothing about the chain
                 tg = s_.targets if isinstance(s_, (ast.Assign, ast.Delete)) else [s_.target] if isinstance(s_, (ast.AugAssign, ast.AnnAssign)) else []
                 for t in tg:
                     for e in (t.elts if isinstance(t, (ast.Tuple, ast.List)) else [t]):
